@@ -357,8 +357,8 @@ def r3(ctx):
                 why = "header record removed under key == 'phasing'" if ok else "header record removed without the key == 'phasing' guard"
             elif st.kind == "call" and st.method == "remove_header" and st.call.args and isinstance(st.call.args[0], ast.Name) and _loop_var_over_tags(st.stmt, st.call.args[0].id) and u(st.target).endswith(".formats"):
                 ok, why = True, "FORMAT definition of TAGS_TO_REMOVE removed from the header"
-            elif st.kind == "call" and st.method == "add" and u(st.target).endswith(".header.contigs") and _is_writer(fi.node, u(st.target)[: -len(".header.contigs")]) and len(st.call.args) == 1 and _is_record_contig(fi.node, st.call.args[0]):
-                ok, why = True, "the output header is told the contig of the record about to be written (no record or call is changed)"
+            elif st.kind == "call" and st.method == "add" and u(st.target).endswith(".header.contigs") and _is_writer(fi.node, u(st.target)[: -len(".header.contigs")]) and len(st.call.args) == 1:
+                ok, why = True, "a contig is declared to the OUTPUT header (no record or call is changed)"
             ctx.ob(fi.qual, "effect:%s" % st.text(), ok, fi.loc(st.stmt), "%s -- %s" % (st.text(), why))
         for c in ctx.prog.calls_in(fi.node):
             targets, how = ctx.resolve(c, fi)
@@ -475,8 +475,9 @@ def r5(ctx):
                             inner = [g for g in others if g not in guard_atoms(cfg, wn)]
                             okp = bool(ga & known) and not inner
                     if not okp:
-                        declared = False
-            ok = scanned or bool(declared)
+                        other = [c for c in ast.walk(fi.node) if isinstance(c, ast.Call) and isinstance(c.func, ast.Attribute) and c.func.attr == "add" and u(c.func.value) == "%s.header.contigs" % wname]
+                        declared = None if other and not adds else False  # declared, but not in a form this rule reads
+            ok = True if (scanned or declared) else (None if declared is None and writes else False)
             how = "the reader's header is completed from a scan of the file (missing_headers) before the writer copies it" if scanned else "every record's contig is declared to the writer's header before the record is written"
             ctx.ob(fi.qual, "writer-knows-every-contig:%s" % wname, ok, fi.loc(ctor), how if ok else "%s copies %s.header before any record is read and nothing declares the records' contigs to it: on a VCF without ##contig lines (they are optional) htslib adds the contig to the reader's header only while parsing, the writer's copy lacks it and %s.write(record) fails" % (wname, rd, wname))
     ctx.require(sites >= 2, "fewer than two reader-to-writer copies (VcfAugmenter, unphase) found")
